@@ -65,6 +65,11 @@ CONTENT_TYPES = ['text/plain', 'application/xml',
                  'application/json;charset=UTF-8']
 
 
+FLOAT_TRAPS = [(12, 2, 0.3), (17, 7, 0.3), (24, 4, 0.3), (31, 1, 0.3),
+               (43, 23, 0.1), (43, 33, 0.1), (41, 1, 0.3), (50, 0, 2.3),
+               (52, 2, 2.3), (90, 0, 0.7), (100, 10, 0.7), (30, 0, 0.1)]
+
+
 class Gen(object):
 
     def __init__(self, rng, n_providers=6, n_consumers=6, mix=None,
@@ -85,6 +90,9 @@ class Gen(object):
         self.name_seq = 0
         self.seen_names = set()
         self.focus_p = None     # restrict provider choices (conc batches)
+        # a tenth of the histories is keen on inventories whose min_unit
+        # exceeds their max_unit
+        self.p_odd_units = 0.4 if rng.random() < 0.1 else 0.02
         self.custom_traits = list(CUSTOM_TRAITS)
         if rng.random() < 0.2:
             # ... so is a name: a trait may be called what a class is called
@@ -151,6 +159,22 @@ class Gen(object):
                               {'total': t, 'allocation_ratio': 0.0},
                               {'total': t, 'reserved': 0,
                                'allocation_ratio': 0.0, 'max_unit': t}])
+        if self.chance(self.p_odd_units):
+            # legal, and nothing can ever be allocated from it: the smallest
+            # admissible amount exceeds the largest
+            t = self.rng.randint(4, 16)
+            hi = self.pick([1, 2, 2, 4])
+            return {'total': t, 'min_unit': hi + self.pick([1, 2]),
+                    'max_unit': hi, 'step_size': self.pick([1, 1, 2])}
+        if self.chance(0.04):
+            # products that floating point puts just beside an integer:
+            # (total - reserved) * ratio and total * ratio - reserved * ratio
+            # fall on different sides of it
+            t, r, ratio = self.pick(FLOAT_TRAPS)
+            inv = {'total': t, 'allocation_ratio': ratio}
+            if r:
+                inv['reserved'] = r
+            return inv
         if self.chance(0.02):
             # the largest values the schema admits
             big = 2147483647
@@ -217,6 +241,9 @@ class Gen(object):
                 if not op.get('defect') and \
                         self.chance(self.invalid_rate * 0.12):
                     self.schema_break(op)
+                if self.accept_variants and not op.get('defect') and \
+                        self.chance(0.012):
+                    self.unencodable_break(op)
                 if self.accept_variants and op.get('v') not in (
                         None, 'latest') and self.chance(0.03):
                     # the header may list versions for several services
@@ -224,6 +251,20 @@ class Gen(object):
                         'compute 2.53, placement %s', 'placement %s, compute '
                         '2.1', 'identity 3, placement %s,volume 3.0',
                         'PLACEMENT %s']) % op['v']}
+                elif self.accept_variants and not op.get('defect') and \
+                        self.chance(0.03):
+                    # who is asking: without the admin or service role every
+                    # route answers 403 (401 without a token) and does
+                    # nothing - in particular nothing before it looks
+                    probe = dict(op)
+                    ok = (m.apply(probe) if op['m'] == 'GET' else
+                          m.clone().apply(probe)).status < 400
+                    if ok:
+                        op['h'] = self.pick([
+                            {'x-auth-token': 'bob:proj-0', 'x-roles': None},
+                            {'x-auth-token': 'bob:proj-0', 'x-roles': None},
+                            {'x-auth-token': None}])
+                        op['defect'] = 'caller'
                 elif self.accept_variants and self.chance(0.04):
                     # what the client says it accepts: read routes answer
                     # 406 when JSON is not acceptable, writes do not look
@@ -245,6 +286,30 @@ class Gen(object):
                     op['h'] = {'content-type': ct}
                 return op
         return self.g_rp_create(m) or self.g_read(m)
+
+    def unencodable_break(self, op):
+        """Text that is valid JSON and passes the schema but cannot be
+        stored: a lone surrogate.  Whatever the answer, nothing may stay
+        behind - in particular not the consumers created for earlier entries
+        of the same request."""
+        k = op['kind']
+        b = op.get('b')
+        bad = self.pick([u'p\ud800', u'\udfffx'])
+        if k == 'alloc_put' and isinstance(b, dict) and 'project_id' in b:
+            b[self.pick(['project_id', 'user_id'])] = bad
+        elif k == 'alloc_post' and b:
+            c = list(b)[-1]
+            if 'project_id' not in b[c]:
+                return
+            b[c][self.pick(['project_id', 'user_id'])] = bad
+        elif k == 'reshape' and b.get('allocations'):
+            c = list(b['allocations'])[-1]
+            b['allocations'][c][self.pick(['project_id', 'user_id'])] = bad
+        elif k == 'rp_create':
+            b['name'] = bad
+        else:
+            return
+        op['defect'] = 'unencodable'
 
     def schema_break(self, op):
         """Turn an otherwise valid write into a schema violation (one reason
@@ -656,7 +721,7 @@ class Gen(object):
                  if n >= lo and n % step == 0]
         if not cands:
             cands = [room]
-        elif room > 1000 and self.chance(0.3):
+        elif room > 1000 and self.chance(0.3) or self.chance(0.12):
             # everything that is left, however much
             top = min(room, inv['max_unit'])
             top -= top % step
@@ -755,6 +820,10 @@ class Gen(object):
                 b['consumer_type'] = self.pick(TYPES)
         return b
 
+    def _has_odd_units(self, m):
+        return any(inv['min_unit'] > inv['max_unit'] and rp in m.providers
+                   for (rp, rc), inv in m.inventories.items())
+
     def _inject_alloc_defect(self, m, alloc, d, excluding):
         """Mutate a valid allocation dict with one defect."""
         if d == 'unknown_rp':
@@ -806,12 +875,28 @@ class Gen(object):
                                       inv['step_size'] else 1))
                     if inv['max_unit'] < 1000:
                         cands.append((rp, rc, inv['max_unit'] + 1))
+            # an inventory whose min_unit exceeds its max_unit admits no
+            # amount at all - not even exactly max_unit (or min_unit)
+            odd = []
+            for (rp, rc), inv in sorted(m.inventories.items()):
+                if rp in m.providers and rc not in alloc.get(rp, {}) and \
+                        inv['min_unit'] > inv['max_unit'] >= 1:
+                    # (capacity left, whatever the unit constraints say)
+                    room = int(M.capacity(inv)) - sum(
+                        a.get(rp, {}).get(rc, 0)
+                        for c_, a in m.allocations.items()
+                        if c_ not in excluding)
+                    for n in (inv['max_unit'], inv['min_unit']):
+                        if n <= room and n % inv['step_size'] == 0:
+                            odd.append((rp, rc, n))
+            if odd and (not cands or self.chance(0.8)):
+                cands = odd
             if not cands:
                 return False
             rp, rc, n = self.pick(cands)
             if n < 1:
                 return False
-            alloc[rp][rc] = n
+            alloc.setdefault(rp, {})[rc] = n
         elif d == 'over':
             if not alloc:
                 return False
@@ -845,12 +930,16 @@ class Gen(object):
                 return None
         d = None
         cg = 'right'
-        if self.chance(self.invalid_rate):
+        keen = (self.p_odd_units > 0.1 and not clear and
+                self._has_odd_units(m) and self.chance(0.5))
+        if keen or self.chance(self.invalid_rate):
             choices = ['unknown_rp', 'unknown_rc', 'no_inventory', 'unit',
                        'over', 'zero_room']
             if vv >= (1, 28):
                 choices += ['stale_cg', 'stale_cg']
-            d = self.pick(choices)
+            if self._has_odd_units(m):
+                choices += ['unit'] * 5
+            d = 'unit' if keen else self.pick(choices)
             if d == 'stale_cg':
                 cg = 'wrong'
             elif clear or not self._inject_alloc_defect(m, alloc, d, {c}):
@@ -870,7 +959,9 @@ class Gen(object):
         body = {}
         extra = {}
         excluding = set(cs)
-        bad_at = self.rng.randrange(n) if self.chance(
+        keen = (self.p_odd_units > 0.1 and self._has_odd_units(m) and
+                self.chance(0.5))
+        bad_at = self.rng.randrange(n) if keen or self.chance(
             self.invalid_rate) else None
         d = None
         # "same pair" mode: every consumer of the request lands on ONE
@@ -918,7 +1009,9 @@ class Gen(object):
                            'unit', 'over', 'zero_room']
                 if vv >= (1, 28):
                     choices += ['stale_cg', 'stale_cg']
-                d = self.pick(choices)
+                if self._has_odd_units(m):
+                    choices += ['unit'] * 5
+                d = 'unit' if keen else self.pick(choices)
                 if d == 'stale_cg':
                     cg = 'wrong'
                 elif d == 'over':
@@ -1149,8 +1242,8 @@ def op_brief(op):
     out = {'m': op['m'], 'p': op['p'], 'v': op.get('v')}
     if op.get('b') is not None:
         out['b'] = copy.deepcopy(op['b'])
-    if op.get('defect') == 'schema':
-        out['defect'] = 'schema'
+    if op.get('defect') in ('schema', 'unencodable'):
+        out['defect'] = op['defect']
     if op.get('h'):
         out['h'] = dict(op['h'])
     if op.get('w'):
